@@ -92,6 +92,7 @@ func main() {
 	h.protocolCampaign()
 	h.pipelineCampaign()
 	h.roundTripCampaign()
+	h.scheduleConvCampaign()
 	h.killCampaign()
 	if o.Thorough() {
 		h.exhaustiveCampaign()
@@ -618,6 +619,10 @@ type realDB struct {
 	path    string
 }
 
+// goroutineNoise is set when the goroutine count moved for a reason other than
+// the database's clean-ups; the case's comparison with the model is skipped.
+var goroutineNoise bool
+
 func newRealDB(path string) *realDB {
 	st := &storage{}
 	ec := &errColl{}
@@ -731,6 +736,13 @@ func (x *realDB) look(kind string, a, b int) (res lookRes) {
 		p, d, err = x.db.ProfileByHumanID(ctx, pidStr(a), humStr(b))
 	}
 	res.spawn = runtime.NumGoroutine() - before
+	if res.spawn < 0 {
+		// A goroutine that is not ours (runtime, a timer, a lingering
+		// connection of an earlier campaign) ended during the look-up: the
+		// count says nothing about clean-ups in this case.
+		goroutineNoise = true
+		res.spawn = 0
+	}
 	x.pending += res.spawn
 	res.p, res.d, res.err = p, d, err
 	switch {
@@ -998,6 +1010,7 @@ func (h *harness) runCase(campaign string, ops []op, path string, report bool) (
 	want := []string{"ok"}
 	var st caseStats
 	discarded := false
+	goroutineNoise = false
 	expectedErrs := 0
 	// The backend of the protocol ops and the reference of what the cache
 	// file holds in that campaign (the backend at the last full sync).
@@ -1195,6 +1208,12 @@ func (h *harness) runCase(campaign string, ops []op, path string, report bool) (
 	}
 	if discarded {
 		r.Count(campaign + ":discarded-early-cleanup")
+
+		return sigs
+	}
+	if goroutineNoise {
+		goroutineNoise = false
+		r.Count(campaign + ":discarded-goroutine-noise")
 
 		return sigs
 	}
